@@ -781,6 +781,51 @@ fn sweep(ctx: &mut Ctx) {
             st.sample(json!({"engine":"E-prod sweep","state_class": cname, "mlen": mlen, "adlens": adlens.len(), "tags": tags.len()}));
         }
     });
+    // counter edges: every counter whose four bytes are drawn from {00, 01, fe, ff} (all carry
+    // chains of the little-endian increment) plus 2^k-1, 2^k for every k: one push and one pull
+    // from that state, ciphertext and both successor states against libsodium
+    {
+        let mut ctrs: Vec<u32> = vec![];
+        for a in [0u8, 1, 0xfe, 0xff] {
+            for b in [0u8, 1, 0xfe, 0xff] {
+                for c in [0u8, 1, 0xfe, 0xff] {
+                    for d in [0u8, 1, 0xfe, 0xff] {
+                        ctrs.push(u32::from_le_bytes([a, b, c, d]));
+                    }
+                }
+            }
+        }
+        for k in 1..32 {
+            ctrs.push((1u32 << k) - 1);
+            ctrs.push(1u32 << k);
+        }
+        ctrs.sort();
+        ctrs.dedup();
+        let key: [u8; 32] = karr(seed, 3);
+        let st = par_units(&ctrs, |&ctr, st| {
+            let mut nonce = [0u8; 12];
+            nonce[..4].copy_from_slice(&ctr.to_le_bytes());
+            nonce[4..].copy_from_slice(&prand(seed, "inonce", 9, 8));
+            let raw: Raw = (key, nonce);
+            for mlen in [0usize, 17] {
+                for tag in [0u8, 1, 3] {
+                    let m = cval(seed, 3, mlen);
+                    let r = do_push(&raw, &m, None, tag).and_then(|(c, post)| do_pull(&raw, &c, None, true).map(|o| (o, post)));
+                    let ok = matches!(&r, Ok((o, post)) if o.accepted.as_ref().map(|(mm, t)| mm == &m && *t == tag).unwrap_or(false) && o.post == *post);
+                    st.eval(&("ctr-edge", ctr, mlen, tag), true, if ok { "roundtrip==libsodium" } else { "counter-edge-disagreement" });
+                    if !ok {
+                        let (class, d) = match r {
+                            Err((c, d)) => (c, d),
+                            Ok(_) => ("roundtrip", "pull did not return the pushed message/tag or states diverge".to_string()),
+                        };
+                        st.fail(Fail { check: "C03.sweep".into(), signature: format!("C03/sweep/{}/counter-edge", class), what: format!("counter {:#010x} mlen={} tag={}: {}", ctr, mlen, tag, d), case: json!({"k": hx(&raw.0), "nonce": hx(&raw.1), "mlen": mlen, "msg": hx(&m), "ad": Value::Null, "tag": tag}) });
+                    }
+                }
+            }
+        });
+        ctx.note("counter_edges", json!(ctrs.len()));
+        ctx.absorb("counter-edges", st);
+    }
     ctx.note("sweep_dims", json!({"state_classes": classes.len(), "mlen": format!("0..={}", max_mlen), "adlens": adlens.len(), "tags": tags.len()}));
     ctx.absorb("sweep", st);
 }
@@ -810,7 +855,7 @@ pub fn run() -> i32 {
     sodium::init();
     quiet_panics();
     let mut ctx = Ctx::new("C03", "model_checking");
-    ctx.rule = "states: distinct (push state, pull state, in-flight queue<=2, last delivered, depth, rejected-flag) values reached by exhaustive search over the action alphabet {Push(mlen in {0,17} (and {0,1,17,64} in the wide-alphabet run at a smaller depth) x ad in {none,3B} x tag in 0..=3), RekeyBoth, RekeyPush, RekeyPull, Reinit (init_push / init_pull of a new key and header on the used State values, compared with libsodium's init), Deliver, Wrong(12 kinds)} from every initial state up to the depth bound; every transition executes the real dryoc classic + object API code and libsodium in lockstep; sweep: every (state class, mlen, adlen, tag byte) cell once; a case is non-trivial when both dryoc and libsodium were executed on it".into();
+    ctx.rule = "states: distinct (push state, pull state, in-flight queue<=2, last delivered, depth, rejected-flag) values reached by exhaustive search over the action alphabet {Push(mlen in {0,17} (and {0,1,17,64} in the wide-alphabet run at a smaller depth) x ad in {none,3B} x tag in 0..=3), RekeyBoth, RekeyPush, RekeyPull, Reinit (init_push / init_pull of a new key and header on the used State values, compared with libsodium's init), Deliver, Wrong(12 kinds)} from every initial state up to the depth bound; every transition executes the real dryoc classic + object API code and libsodium in lockstep; sweep: every (state class, mlen, adlen, tag byte) cell once, and every counter with bytes in {00,01,fe,ff} or of the form 2^k-1 / 2^k; a case is non-trivial when both dryoc and libsodium were executed on it".into();
     ctx.assume("libsodium 1.0.18 (libsodium-sys 0.2.7) is the reference for bytes, verdicts and state");
     ctx.assume("histories longer than the depth bound and payload values outside the stated alphabets are not covered");
     ctx.assume("raw stream states are installed through hook H1 (counter presets replace 2^32 real pushes)");
